@@ -2,7 +2,7 @@
    Proofs/Fk/MovingLibInv.v and MovingLibFin.v *)
 From BV Require Import Base.Prelude Model.Block Model.ForkDB Model.Forkable Spec.Consumer Spec.Universe
   Spec.C01_Spec Spec.C01_Moving_Spec Spec.C02_Spec
-  Proofs.Fk.StoreFacts Proofs.Fk.WalkFacts Proofs.Fk.FixedLib Proofs.Fk.MovingLibInv Proofs.Fk.MovingLibFin.
+  Proofs.Fk.StoreFacts Proofs.Fk.WalkFacts Proofs.Fk.FixedLib Proofs.Fk.MovingLibInv Proofs.Fk.MovingLibFin Proofs.Fk.FailPrefix Proofs.Fk.FailRun.
 Local Open Scope N_scope.
 
 Section Bridge.
@@ -97,28 +97,75 @@ Section Bridge.
   Qed.
 End Bridge.
 
-Lemma c01_moving_lib_proved : c01_moving_lib_statement.
+(* the never-failing handler *)
+Lemma c01_moving_nofail cfg r0 h :
+  c_fail_at cfg = None -> c_incl cfg = false -> f_new (c_filter cfg) = true -> f_undo (c_filter cfg) = true ->
+  moving_scope_b r0 h = true ->
+  let t := fk_run cfg (fs_init (LExcl r0)) h in
+  length t = length h /\ Forall (fun x => snd x = ROk) t /\
+  c01_discipline_b (LExcl r0) t = true /\ c01_refeed_b [] h t = true /\ c01_error_b (c_fail_at cfg) 0 t = true.
 Proof.
-  intros cfg r0 h Hnofail Hincl Hnew Hundo Hscope.
+  intros Hnofail Hincl Hnew Hundo Hscope.
   destruct (scope_parts r0 h Hscope) as (_ & _ & Hr0 & _).
-  pose proof (moving_lib_run h r0 cfg Hnofail Hnew Hundo Hincl
-                (bridge_id r0 h Hscope) (bridge_uniq r0 h Hscope) (bridge_up r0 h Hscope) Hr0
-                (fun y Hy => proj2 (proj2 (mb_parts r0 h Hscope y Hy)))
-                (fun x Hx => proj1 (proj2 (mb_parts r0 h Hscope x Hx)))
-                (bridge_decl r0 h Hscope)
-                h (fun b Hb => Hb)) as (Hlen & Hok & Hd & Hr & He).
-  unfold c01_statement. repeat split; assumption.
-Qed.
-
-Lemma c02_moving_lib_proved : c02_moving_lib_statement.
-Proof.
-  intros cfg r0 h Hnofail Hincl Hnew Hundo Hirr Hscope.
-  destruct (scope_parts r0 h Hscope) as (_ & _ & Hr0 & _).
-  unfold c02_statement.
-  apply (moving_lib_c02 h r0 cfg Hnofail Hnew Hundo Hirr Hincl
+  exact (moving_lib_run h r0 cfg Hnofail Hnew Hundo Hincl
            (bridge_id r0 h Hscope) (bridge_uniq r0 h Hscope) (bridge_up r0 h Hscope) Hr0
            (fun y Hy => proj2 (proj2 (mb_parts r0 h Hscope y Hy)))
            (fun x Hx => proj1 (proj2 (mb_parts r0 h Hscope x Hx)))
            (bridge_decl r0 h Hscope)
            h (fun b Hb => Hb)).
+Qed.
+
+Lemma c02_moving_nofail cfg r0 h :
+  c_fail_at cfg = None -> c_incl cfg = false -> f_new (c_filter cfg) = true -> f_undo (c_filter cfg) = true ->
+  f_irr (c_filter cfg) = true -> moving_scope_b r0 h = true ->
+  c02_b (LExcl r0) h (fk_run cfg (fs_init (LExcl r0)) h) = true.
+Proof.
+  intros Hnofail Hincl Hnew Hundo Hirr Hscope.
+  destruct (scope_parts r0 h Hscope) as (_ & _ & Hr0 & _).
+  exact (moving_lib_c02 h r0 cfg Hnofail Hnew Hundo Hirr Hincl
+           (bridge_id r0 h Hscope) (bridge_uniq r0 h Hscope) (bridge_up r0 h Hscope) Hr0
+           (fun y Hy => proj2 (proj2 (mb_parts r0 h Hscope y Hy)))
+           (fun x Hx => proj1 (proj2 (mb_parts r0 h Hscope x Hx)))
+           (bridge_decl r0 h Hscope)
+           h (fun b Hb => Hb)).
+Qed.
+
+Lemma c01_moving_lib_proved : c01_moving_lib_statement.
+Proof.
+  intros cfg r0 h Hincl Hnew Hundo Hscope.
+  destruct (c_fail_at cfg) as [k|] eqn:Hf.
+  - (* the handler fails at call k: cut the never-failing run *)
+    destruct (c01_moving_nofail (nofail cfg) r0 h eq_refl Hincl Hnew Hundo Hscope) as (Hlen & Hok & Hd & Hr & He).
+    unfold c01_discipline_b, root_lib in Hd.
+    destruct (apply_all (ri r0) [] (all_events (fk_run (nofail cfg) (fs_init (LExcl r0)) h))) as [S'|] eqn:Happ; [|discriminate].
+    destruct (run_fail_c01 cfg k Hf (ri r0) h (fs_init (LExcl r0)) [] []) as ((S2 & Happ2) & Hre2 & Herr2 & Hres2).
+    + cbn. lia.
+    + exact Hok.
+    + exists S'. exact Happ.
+    + exact Hr.
+    + unfold c01_statement. split; [|split; [exact Hres2 | intros H; discriminate]].
+      split; [|split].
+      * unfold c01_discipline_b, root_lib. rewrite Happ2. reflexivity.
+      * exact Hre2.
+      * rewrite Hf. exact Herr2.
+  - destruct (c01_moving_nofail cfg r0 h Hf Hincl Hnew Hundo Hscope) as (Hlen & Hok & Hd & Hr & He).
+    unfold c01_statement. rewrite Hf in *. split; [repeat split; assumption|]. split.
+    + eapply Forall_impl; [|exact Hok]. cbn beta. auto.
+    + intros _. split; assumption.
+Qed.
+
+Lemma c02_moving_lib_proved : c02_moving_lib_statement.
+Proof.
+  intros cfg r0 h Hincl Hnew Hundo Hirr Hscope. unfold c02_statement.
+  destruct (c_fail_at cfg) as [k|] eqn:Hf.
+  - pose proof (c02_moving_nofail (nofail cfg) r0 h eq_refl Hincl Hnew Hundo Hirr Hscope) as HN.
+    destruct (c01_moving_nofail (nofail cfg) r0 h eq_refl Hincl Hnew Hundo Hscope) as (_ & Hok & _).
+    unfold c02_b, root_ref in *.
+    destruct (fin_trace (ri r0) r0 (mkFM [] 0 r0 false [] []) h (fk_run (nofail cfg) (fs_init (LExcl r0)) h)) as [mN|] eqn:EN; [|discriminate].
+    destruct (run_fail_c02 cfg k Hf (ri r0) r0 h (fs_init (LExcl r0)) (mkFM [] 0 r0 false [] [])) as [m' Hm'].
+    + cbn. lia.
+    + exact Hok.
+    + exists mN. exact EN.
+    + rewrite Hm'. reflexivity.
+  - exact (c02_moving_nofail cfg r0 h Hf Hincl Hnew Hundo Hirr Hscope).
 Qed.
